@@ -18,6 +18,12 @@
 (* one: KillMidElem).  A kill loses nothing but the process: the file      *)
 (* contents stay as they are.                                              *)
 (*                                                                         *)
+(* The notification the client gets need not be the newest: a cache may    *)
+(* present an older one again (StaleCache; `ann` is the version            *)
+(* announced).  The client sends the validator stored with its state       *)
+(* (`lm`: the version whose Last-Modified it holds, 0 = none) and a 304    *)
+(* makes it report its copy as current without looking at it.              *)
+(*                                                                         *)
 (* Variant:                                                                *)
 (*   "code"       the tree as it is: before the first delta element is     *)
 (*                applied the state is overwritten with one that matches   *)
@@ -34,6 +40,8 @@
 (*                         are applied                               [bad] *)
 (*   "snapshot_in_place"   the snapshot is written into the existing       *)
 (*                         archive, state first                      [bad] *)
+(*   "mark_keeps_lm"       the mark clears session and ETag but keeps      *)
+(*                         Last-Modified                             [bad] *)
 (***************************************************************************)
 EXTENDS Naturals, Sequences, FiniteSets, TLC
 
@@ -60,11 +68,12 @@ VARIABLES srv,         \* sequence of [sess, objs]; serial of srv[i] is i
           ei,          \* next element of that delta
           todo,        \* snapshot: objects still to be written
           reported,    \* the step just taken ended a run with "updated" (or "not modified": copy is current)
+          ann,         \* the version the notification announces (a cache may serve an older one again)
           kills, runs
 
-vars == <<srv, arch, tmp, pc, target, di, ei, todo, reported, kills, runs>>
+vars == <<srv, arch, tmp, pc, target, di, ei, todo, reported, ann, kills, runs>>
 
-NoFile == [ex |-> FALSE, sess |-> Nil, serial |-> 0, objs |-> [o \in Objs |-> Absent]]
+NoFile == [ex |-> FALSE, sess |-> Nil, serial |-> 0, lm |-> 0, objs |-> [o \in Objs |-> Absent]]
 
 (* The elements of the delta leading to version v, in object order. *)
 Changed(v) == {o \in Objs : srv[v - 1].objs[o] # srv[v].objs[o]}
@@ -80,25 +89,37 @@ Init ==
   /\ srv = << [sess |-> 1, objs |-> [o \in Objs |-> Absent]] >>
   /\ arch = NoFile /\ tmp = NoFile
   /\ pc = "idle" /\ target = 0 /\ di = 0 /\ ei = 0 /\ todo = {}
-  /\ reported = FALSE /\ kills = 0 /\ runs = 0
+  /\ reported = FALSE /\ ann = 1 /\ kills = 0 /\ runs = 0
 
 -----------------------------------------------------------------------------
 (* The server *)
+(* (The client reads the notification only at RunStart and the files of a   *)
+(* version never change, so server steps commute with the steps of a run:  *)
+(* they are taken only between runs.)                                       *)
 Publish ==
+  /\ pc = "idle"
   /\ Len(srv) < MaxVer
   /\ \E m \in Maps, newSess \in BOOLEAN :
         /\ (~newSess => m # srv[Len(srv)].objs)
         /\ srv' = Append(srv, [sess |-> IF newSess THEN srv[Len(srv)].sess + 1 ELSE srv[Len(srv)].sess,
                                objs |-> m])
+  /\ ann' = Len(srv')
   /\ reported' = FALSE
   /\ UNCHANGED <<arch, tmp, pc, target, di, ei, todo, kills, runs>>
+
+(* A cache presents an older notification again (or the newest one after that). *)
+StaleCache ==
+  /\ pc = "idle"
+  /\ \E a \in 1..Len(srv) : a # ann /\ ann' = a
+  /\ reported' = FALSE
+  /\ UNCHANGED <<srv, arch, tmp, pc, target, di, ei, todo, kills, runs>>
 
 -----------------------------------------------------------------------------
 (* A client run *)
 StartSnapshot(n) ==
   IF Variant = "snapshot_in_place"
     THEN /\ pc' = "snap_objs" /\ todo' = Objs
-         /\ arch' = [ex |-> TRUE, sess |-> srv[n].sess, serial |-> n, objs |-> arch.objs]   \* state first, in place
+         /\ arch' = [ex |-> TRUE, sess |-> srv[n].sess, serial |-> n, lm |-> n, objs |-> arch.objs]   \* state first, in place
          /\ UNCHANGED tmp
     ELSE /\ pc' = "snap_objs" /\ todo' = {o \in Objs : srv[n].objs[o] # Absent}
          /\ tmp' = [NoFile EXCEPT !.ex = TRUE]
@@ -107,9 +128,13 @@ StartSnapshot(n) ==
 RunStart ==
   /\ pc = "idle" /\ runs < MaxRuns
   /\ runs' = runs + 1
-  /\ LET n == Len(srv) IN
+  /\ LET n == ann IN
      /\ target' = n
-     /\ IF ~arch.ex \/ arch.sess # srv[n].sess \/ arch.serial > n
+     /\ IF arch.ex /\ arch.sess # Broken /\ arch.lm # 0 /\ arch.lm >= n
+          THEN \* If-Modified-Since with the stored date: 304, not_modified() (base.rs:847)
+               /\ reported' = TRUE
+               /\ pc' = "idle" /\ UNCHANGED <<arch, tmp, di, ei, todo>>
+        ELSE IF ~arch.ex \/ arch.sess # srv[n].sess \/ arch.serial > n
             \/ (arch.serial < n /\ ~SameSession(arch.serial, n))
           THEN StartSnapshot(n) /\ reported' = FALSE /\ UNCHANGED <<di, ei>>
         ELSE IF arch.serial = n
@@ -121,22 +146,22 @@ RunStart ==
                       ELSE IF Variant = "state_first" THEN "delta_state_first"
                       ELSE "delta_apply"
              /\ UNCHANGED <<arch, tmp, todo>>
-  /\ UNCHANGED <<srv, kills>>
+  /\ UNCHANGED <<srv, ann, kills>>
 
 (* base.rs:1026-1043 *)
 DeltaMark ==
   /\ pc = "delta_mark"
-  /\ arch' = [arch EXCEPT !.sess = Nil]
+  /\ arch' = [arch EXCEPT !.sess = Nil, !.lm = IF Variant = "mark_keeps_lm" THEN @ ELSE 0]
   /\ pc' = "delta_apply"
   /\ reported' = FALSE
-  /\ UNCHANGED <<srv, tmp, target, di, ei, todo, kills, runs>>
+  /\ UNCHANGED <<srv, tmp, target, di, ei, todo, ann, kills, runs>>
 
 DeltaStateFirst ==
   /\ pc = "delta_state_first"
-  /\ arch' = [arch EXCEPT !.sess = srv[target].sess, !.serial = target]
+  /\ arch' = [arch EXCEPT !.sess = srv[target].sess, !.serial = target, !.lm = target]
   /\ pc' = "delta_apply"
   /\ reported' = FALSE
-  /\ UNCHANGED <<srv, tmp, target, di, ei, todo, kills, runs>>
+  /\ UNCHANGED <<srv, tmp, target, di, ei, todo, ann, kills, runs>>
 
 PrecondOk(e) ==
   \/ Variant = "pre_fix_no_precond"
@@ -158,14 +183,14 @@ DeltaApply ==
                  /\ UNCHANGED <<pc, di, tmp, todo>>
             ELSE \* ConflictingDelta: fall back to the snapshot
                  /\ StartSnapshot(target) /\ UNCHANGED <<di, ei>>
-  /\ UNCHANGED <<srv, target, kills, runs>>
+  /\ UNCHANGED <<srv, target, ann, kills, runs>>
 
 (* base.rs:1066-1077 *)
 DeltaState ==
   /\ pc = "delta_state"
-  /\ arch' = [arch EXCEPT !.sess = srv[target].sess, !.serial = target]
+  /\ arch' = [arch EXCEPT !.sess = srv[target].sess, !.serial = target, !.lm = target]
   /\ pc' = "idle" /\ reported' = TRUE
-  /\ UNCHANGED <<srv, tmp, target, di, ei, todo, kills, runs>>
+  /\ UNCHANGED <<srv, tmp, target, di, ei, todo, ann, kills, runs>>
 
 (* Snapshot: objects into the temporary archive *)
 SnapObj ==
@@ -179,7 +204,7 @@ SnapObj ==
                THEN arch' = [arch EXCEPT !.objs[o] = srv[target].objs[o]] /\ UNCHANGED tmp
                ELSE tmp' = [tmp EXCEPT !.objs[o] = srv[target].objs[o]] /\ UNCHANGED arch
           /\ UNCHANGED pc
-  /\ UNCHANGED <<srv, target, di, ei, kills, runs>>
+  /\ UNCHANGED <<srv, target, di, ei, ann, kills, runs>>
 
 (* update.rs:222-227: state, then the index (finalize) *)
 SnapState ==
@@ -189,21 +214,21 @@ SnapState ==
        THEN pc' = "idle" /\ UNCHANGED <<tmp, arch>>
        ELSE /\ tmp' = [tmp EXCEPT !.sess = srv[target].sess, !.serial = target]
             /\ pc' = "snap_remove" /\ UNCHANGED arch
-  /\ UNCHANGED <<srv, target, di, ei, todo, kills, runs>>
+  /\ UNCHANGED <<srv, target, di, ei, todo, ann, kills, runs>>
 
 (* base.rs:966 *)
 SnapRemove ==
   /\ pc = "snap_remove"
   /\ arch' = NoFile
   /\ pc' = "snap_rename" /\ reported' = FALSE
-  /\ UNCHANGED <<srv, tmp, target, di, ei, todo, kills, runs>>
+  /\ UNCHANGED <<srv, tmp, target, di, ei, todo, ann, kills, runs>>
 
 (* base.rs:979 *)
 SnapRename ==
   /\ pc = "snap_rename"
   /\ arch' = tmp /\ tmp' = NoFile
   /\ pc' = "idle" /\ reported' = TRUE
-  /\ UNCHANGED <<srv, target, di, ei, todo, kills, runs>>
+  /\ UNCHANGED <<srv, target, di, ei, todo, ann, kills, runs>>
 
 -----------------------------------------------------------------------------
 (* The process dies.  The temporary file stays behind under a random name  *)
@@ -212,7 +237,7 @@ Kill ==
   /\ pc # "idle" /\ kills < MaxKills
   /\ kills' = kills + 1
   /\ pc' = "idle" /\ tmp' = NoFile /\ todo' = {} /\ reported' = FALSE
-  /\ UNCHANGED <<srv, arch, target, di, ei, runs>>
+  /\ UNCHANGED <<srv, arch, target, di, ei, ann, runs>>
 
 (* ... in the middle of an element's write: an object replaced in place    *)
 (* can be half written; one replaced by delete + publish can be gone.      *)
@@ -226,7 +251,7 @@ KillMidElem ==
         /\ \E mid \in {Torn, Absent} : arch' = [arch EXCEPT !.objs[e.o] = mid]
   /\ kills' = kills + 1
   /\ pc' = "idle" /\ tmp' = NoFile /\ todo' = {} /\ reported' = FALSE
-  /\ UNCHANGED <<srv, target, di, ei, runs>>
+  /\ UNCHANGED <<srv, target, di, ei, ann, runs>>
 
 (* ... in the middle of a state write (the record is replaced in place):  *)
 (* the archive cannot be read any more; the next run takes the snapshot     *)
@@ -236,9 +261,9 @@ KillMidState ==
   /\ arch' = [arch EXCEPT !.sess = Broken]
   /\ kills' = kills + 1
   /\ pc' = "idle" /\ tmp' = NoFile /\ todo' = {} /\ reported' = FALSE
-  /\ UNCHANGED <<srv, target, di, ei, runs>>
+  /\ UNCHANGED <<srv, target, di, ei, ann, runs>>
 
-Next == Publish \/ RunStart \/ DeltaMark \/ DeltaStateFirst \/ DeltaApply \/ DeltaState
+Next == Publish \/ StaleCache \/ RunStart \/ DeltaMark \/ DeltaStateFirst \/ DeltaApply \/ DeltaState
         \/ SnapObj \/ SnapState \/ SnapRemove \/ SnapRename \/ Kill \/ KillMidElem \/ KillMidState
 
 Spec == Init /\ [][Next]_vars
@@ -253,11 +278,14 @@ TypeOK ==
 
 (* C24: a run that reports the repository as updated (or current) leaves   *)
 (* the copy equal to the server's snapshot at the notified serial.          *)
+(* (After a 304 for a stale notification the copy may be ahead of what is   *)
+(* announced; it then equals the snapshot at its own serial.)               *)
 C24_ReportedMeansEqual ==
   reported => /\ arch.ex
-              /\ arch.serial = target
-              /\ arch.sess = srv[target].sess
-              /\ arch.objs = srv[target].objs
+              /\ arch.serial \in 1..Len(srv)
+              /\ arch.sess = srv[arch.serial].sess
+              /\ arch.objs = srv[arch.serial].objs
+              /\ (arch.serial = target \/ (arch.lm # 0 /\ arch.lm >= target))
 
 (* A torn object never survives into a copy reported as updated, and the   *)
 (* temporary archive is never what a run reads.                             *)
